@@ -70,6 +70,7 @@ type snapshot struct {
 	value  any
 	text   string
 	at     int
+	deep   any // deep copy made when the data set was obtained
 }
 
 func same(a, b string) bool {
@@ -82,16 +83,35 @@ func same(a, b string) bool {
 	return norm(a) == norm(b)
 }
 
+// sameData: equal in memory; no data and an empty data set are the same.
+func sameData(a, b any) bool {
+	empty := func(v any) bool {
+		if v == nil {
+			return true
+		}
+		rv := reflect.ValueOf(v)
+		if rv.Kind() == reflect.Ptr {
+			return rv.IsNil() || rv.Elem().IsZero()
+		}
+		return rv.IsZero()
+	}
+	if empty(a) && empty(b) {
+		return true
+	}
+	return reflect.DeepEqual(a, b)
+}
+
 func sigShape(s string) string { return strings.NewReplacer("+", "-", "&", "-and-").Replace(s) }
 
 type env struct {
-	w     *world.World
-	f     *gen.Func
-	srv   api.FeatureLocalInterface  // local store
-	cli   api.FeatureLocalInterface  // local client feature (destination of replies/notifies)
-	p     *world.Peer                // peer: server feature [1]/1, client feature [1]/2 (bound)
-	rf    api.FeatureRemoteInterface // remote store
-	snaps []snapshot
+	w          *world.World
+	f          *gen.Func
+	srv        api.FeatureLocalInterface  // local store
+	cli        api.FeatureLocalInterface  // local client feature (destination of replies/notifies)
+	p          *world.Peer                // peer: server feature [1]/1, client feature [1]/2 (bound)
+	rf         api.FeatureRemoteInterface // remote store
+	snaps      []snapshot
+	subscribed bool // the peer has subscribed to the local server feature
 	// model states, for well-formed update generation only
 	lstate, rstate []reflect.Value
 }
@@ -117,12 +137,18 @@ func (e *env) take(origin string, v any, at int) {
 	if v == nil || (reflect.ValueOf(v).Kind() == reflect.Ptr && reflect.ValueOf(v).IsNil()) {
 		return
 	}
-	e.snaps = append(e.snaps, snapshot{origin: origin, value: v, text: world.JSON(v), at: at})
+	// (the harness never encodes a live data set itself: encoding is something the stack does, and
+	// what it may do to the data while encoding is part of what is checked)
+	deep := world.DeepCopy(v)
+	e.snaps = append(e.snaps, snapshot{origin: origin, value: v, text: world.JSON(deep), at: at, deep: deep})
 }
 
 func (e *env) checkSnaps(t world.TB, step int, what string) {
 	for _, s := range e.snaps {
-		if now := world.JSON(s.value); now != s.text {
+		// compared in memory against a deep copy made when the data set was obtained (not as JSON text:
+		// the model re-expresses relative end times against the clock when it encodes them)
+		if !reflect.DeepEqual(s.value, s.deep) {
+			now := world.JSON(world.DeepCopy(s.value))
 			world.Fail(t, fmt.Sprintf("C11/snapshot-changed/%s/%s", s.origin, sigShape(what)),
 				"a data set obtained at step %d (%s) changed when step %d (%s) was processed\n function: %s\n taken: %s\n now:   %s", s.at, s.origin, step, what, e.f.Fn, s.text, now)
 		}
@@ -145,14 +171,19 @@ func TestSnapshots(t *testing.T) {
 		e := newEnv(&f)
 		defer e.w.Teardown()
 		shapes := listgen.ShapesFor(&f)
-		o := gen.Opt{Dense: true, NestedElements: true, UnsortedFull: true}
+		o := gen.Opt{Dense: true, NestedElements: true, UnsortedFull: true, RelativePeriods: true}
 		// populate both stores
 		initL := refmodel.Update{Items: listgen.Items(t, &f, 4, o, "initL")}
 		e.srv.SetData(f.Fn, refmodel.Payload(&f, initL.Items))
 		e.lstate = refmodel.Fold(&f, nil, initL)
-		initR := refmodel.Update{Items: listgen.Items(t, &f, 4, o, "initR")}
-		e.p.Send(e.p.Msg(model.CmdClassifierTypeReply, e.p.FA([]uint{1}, 1), e.cli.Address(), false, e.p.DiscoveryRef, listgen.Cmd(&f, initR)))
-		e.rstate = refmodel.Fold(&f, nil, initR)
+		// (the remote store sometimes starts without any data for the function)
+		if rapid.IntRange(0, 3).Draw(t, "remoteStartsEmpty") != 0 {
+			initR := refmodel.Update{Items: listgen.Items(t, &f, 4, o, "initR")}
+			e.p.Send(e.p.Msg(model.CmdClassifierTypeReply, e.p.FA([]uint{1}, 1), e.cli.Address(), false, e.p.DiscoveryRef, listgen.Cmd(&f, initR)))
+			e.rstate = refmodel.Fold(&f, nil, initR)
+		} else {
+			world.Label("remote-store/starts-empty")
+		}
 		e.w.Sync()
 		e.collectEventPayloads(0)
 		e.take("local-DataCopy", e.srv.DataCopy(f.Fn), 0)
@@ -163,7 +194,32 @@ func TestSnapshots(t *testing.T) {
 		nontrivial := false
 		var hist []any
 		for i := 1; i <= n; i++ {
-			origin := rapid.SampledFrom([]string{"local-update", "local-set", "remote-write", "reply", "notify", "remote-nonpersist"}).Draw(t, fmt.Sprintf("origin%d", i))
+			origin := rapid.SampledFrom([]string{"local-update", "local-set", "remote-write", "reply", "notify", "remote-nonpersist", "peer-read"}).Draw(t, fmt.Sprintf("origin%d", i))
+			if origin == "peer-read" && !e.subscribed && rapid.Bool().Draw(t, fmt.Sprintf("subscribe%d", i)) {
+				// from now on every change of the local data is encoded for a notification (data sets
+				// obtained before have never been encoded by the stack so far)
+				if !e.p.CallOK(world.SubscribeCall(e.p.FA([]uint{1}, 2), e.srv.Address(), f.FeatureType)) {
+					t.Fatalf("harness: subscription not granted")
+				}
+				e.subscribed = true
+				e.p.Cap.Drain()
+				e.w.Events.Drain()
+				seq = append(seq, "peer-subscribes")
+				world.Label("origin/peer-subscribes")
+				continue
+			}
+			if origin == "peer-read" {
+				// no update at all: the peer reads the local data, the stack encodes it for the reply
+				cmd := model.CmdType{}
+				reflect.ValueOf(&cmd).Elem().FieldByName(f.CmdField).Set(reflect.New(f.DataType))
+				e.p.Send(e.p.Msg(model.CmdClassifierTypeRead, e.p.FA([]uint{1}, 2), e.srv.Address(), false, nil, cmd))
+				e.w.Sync()
+				e.p.Cap.Drain()
+				e.checkSnaps(t, i, "peer-read/encode")
+				seq = append(seq, "peer-read")
+				world.Label("origin/peer-read")
+				continue
+			}
 			shape := rapid.SampledFrom(shapes).Draw(t, fmt.Sprintf("shape%d", i))
 			local := origin == "local-update" || origin == "local-set" || origin == "remote-write"
 			state := e.rstate
@@ -177,7 +233,8 @@ func TestSnapshots(t *testing.T) {
 			what := origin + "/" + u.Shape()
 			payload := refmodel.Payload(&f, u.Items)
 			fp, fd := listgen.Filters(&f, u)
-			beforeL, beforeR := world.JSON(e.srv.DataCopy(f.Fn)), world.JSON(e.rf.DataCopy(f.Fn))
+			deepL, deepR := world.DeepCopy(e.srv.DataCopy(f.Fn)), world.DeepCopy(e.rf.DataCopy(f.Fn))
+			beforeL, beforeR := world.JSON(deepL), world.JSON(deepR)
 			failed, nonPersist := false, false
 			switch origin {
 			case "local-update":
@@ -216,14 +273,15 @@ func TestSnapshots(t *testing.T) {
 				failed = err != nil
 			}
 			e.w.Sync()
-			afterL, afterR := world.JSON(e.srv.DataCopy(f.Fn)), world.JSON(e.rf.DataCopy(f.Fn))
+			afterL, afterR := world.JSON(world.DeepCopy(e.srv.DataCopy(f.Fn))), world.JSON(world.DeepCopy(e.rf.DataCopy(f.Fn)))
 			// clause 2: failed / non-persisting updates leave the stored data exactly as it was
 			if failed || nonPersist {
 				kind := "failed"
 				if nonPersist {
 					kind = "nonpersist"
 				}
-				if !same(beforeL, afterL) || !same(beforeR, afterR) {
+				// (in memory, against deep copies: the JSON texts are for the message only)
+				if !sameData(deepL, e.srv.DataCopy(f.Fn)) || !sameData(deepR, e.rf.DataCopy(f.Fn)) {
 					world.Fail(t, fmt.Sprintf("C11/%s-changed/%s", kind, sigShape(what)), "step %d (%s, %s) changed the stored data\n update: %s\n local before:  %s\n local after:   %s\n remote before: %s\n remote after:  %s", i, what, kind, world.JSON(listgen.Describe(&f, u)), beforeL, afterL, beforeR, afterR)
 				}
 			} else if local {
